@@ -116,6 +116,9 @@ class RequestChannelCommon(StreamHandler, Publisher, Subscription, Disposable, m
             self.mark_completed_and_finish(received=True)
 
     def cancel(self):
+        if self._received_complete:
+            return  # already cancelled, completed or failed: a repeated or late cancel() sends nothing
+
         self.send_cancel()
         self.mark_completed_and_finish(received=True)
 
@@ -124,4 +127,7 @@ class RequestChannelCommon(StreamHandler, Publisher, Subscription, Disposable, m
             self._sending_done.set()
 
     def request(self, n: int):
+        if self._received_complete:
+            return  # nothing more will be received: late credit is not sent
+
         self.send_request_n(n)
